@@ -6,12 +6,20 @@ Kernel models regenerated from compmech/panel/models/clt_bardell_field*.pyx on e
 `Panel.stress` (plain Python, no C-level routine: the field kernels have none, so nothing can be regenerated for it) is the small HAND
 model `panelStress` of Model/Chunking.lean; its tie to the running code is the numerical clause "stress = F * strain of the same
 option" of tools/props/C11.py (both `NLterms` values on every generated case), not a recorded-trace correspondence.
+Section `glue` (last): the PYTHON GLUE of `Panel.uvw / strain / stress` and `PanelAssembly.uvw / strain / stress` — how `xs, ys` or
+`gridx, gridy` become the point arrays of the compiled call, the reshape of its results, the `group` filter and the slice
+`c[col_start:col_end]` of an assembly, `PanelAssembly.__init__`'s running sums — is the hand model Model/FieldGlue.lean (compiled
+kernels = parameters, acting at one point; the def-level wrappers = `Chunking.chunkedMap`), tied by the recorded-call correspondence
+`field_glue_correspondence` of tools/props/C11.py through Drv/C11.lean.  Vocabulary (Model/FieldGlueLemmas.lean): `pick l idx` (entries of
+`l` at the positions `idx`), `xsOf pts / ysOf pts` (the 1-d arrays of a point list), `gridPts a b gx gy` (grid points in result order),
+`sizesOf panels` (`3 m n` per panel).
 -/
 import CompmechVerif.Gen.Field.Clt
 import CompmechVerif.Gen.Field.CltW
 import CompmechVerif.Spec.Kinematics
 import CompmechVerif.Model.ChunkingLemmas
 import CompmechVerif.Spec.FieldStress
+import CompmechVerif.Model.FieldGlueLemmas
 import CompmechVerif.Core.OpSpecTactics
 import Mathlib.Tactic.NormNum
 import Mathlib.Algebra.Order.Field.Rat
@@ -182,5 +190,499 @@ example : ∃ res : List (Res6 ℚ),
     (by intro x _ X hX; simp only [List.mem_cons, List.not_mem_nil, or_false] at hX; subst hX; norm_num)
 
 end stress
+
+section glue
+open Compmech.FieldGlue Compmech.Chunking
+
+variable {K R G : Type} [Field K]
+
+/-- `Panel.uvw / strain / stress` with point arrays `xs, ys` of equal shape (scalars, lists, arrays of any dimension; `gridx, gridy` are
+then ignored): THE VALUE REPORTED AT THE `j`-TH REQUESTED POINT DEPENDS ONLY ON THAT POINT AND ON `c`.  For every kernel, every panel
+whose `model` is a key of `modelDB.db`, every `out_num_cores ≥ 1`, every one-dimensional (or 0-d) `c`:
+(1) `uvw` returns arrays of the shape of `xs` (`(1,)` for scalars) whose flat entry `j` is the compiled kernel of the model's field module
+at `(xs.ravel()[j], ys.ravel()[j])` with the whole `c` — (2) spelled out per position —,
+(3) exactly ONE compiled call is made: `fuvw(c, self, xs.ravel(), ys.ravel(), self.out_num_cores)`,
+(4) `self.Xs, self.Ys` hold the point arrays and `self.u … self.phiy` the returned arrays,
+(5) `strain` returns `x, y` and, per point, the strain kernel for the flag `int(NLterms)`,
+(6) `stress` returns, per point, the laminate matrix (argument `F`, else `self.F`) applied to the strains of the SAME flag. -/
+theorem field_pointwise (kern : Kernels K R) (P : Panel K R G) (k : PanelGlue.ModelKind) (hk : P.d.model = .kind k)
+    (hcores : 1 ≤ P.d.outNumCores) (c : CArg K) (cv : List K) (hc : c.contig = some cv)
+    (X Y : Arr K) (hs : X.atleast1d.shape = Y.atleast1d.shape) (gridx gridy : Int) :
+    (P.uvw kern c (some X) (some Y) gridx gridy).res =
+      .ok ⟨X.atleast1d.shape, (List.zip X.data Y.data).map (kern.uvw (fieldModuleOf k) P.d cv)⟩ ∧
+    (∀ j x y, X.data[j]? = some x → Y.data[j]? = some y →
+      ∃ r, (P.uvw kern c (some X) (some Y) gridx gridy).res = .ok r ∧
+        r.flat? j = some (kern.uvw (fieldModuleOf k) P.d cv (x, y))) ∧
+    (P.uvw kern c (some X) (some Y) gridx gridy).calls =
+      [⟨false, fieldModuleOf k, P.d, cv, List.zip X.data Y.data, P.d.outNumCores, 0⟩] ∧
+    (P.uvw kern c (some X) (some Y) gridx gridy).post.out =
+      { Xs := some X.atleast1d, Ys := some Y.atleast1d,
+        u := some ⟨X.atleast1d.shape, (List.zip X.data Y.data).map fun pt => (kern.uvw (fieldModuleOf k) P.d cv pt).u⟩,
+        v := some ⟨X.atleast1d.shape, (List.zip X.data Y.data).map fun pt => (kern.uvw (fieldModuleOf k) P.d cv pt).v⟩,
+        w := some ⟨X.atleast1d.shape, (List.zip X.data Y.data).map fun pt => (kern.uvw (fieldModuleOf k) P.d cv pt).w⟩,
+        phix := some ⟨X.atleast1d.shape, (List.zip X.data Y.data).map fun pt => (kern.uvw (fieldModuleOf k) P.d cv pt).phix⟩,
+        phiy := some ⟨X.atleast1d.shape, (List.zip X.data Y.data).map fun pt => (kern.uvw (fieldModuleOf k) P.d cv pt).phiy⟩ } ∧
+    (∀ NLterms : Bool, fieldModuleOf k = .clt →
+      (P.strain kern c (some X) (some Y) gridx gridy NLterms).res =
+        .ok ⟨X.atleast1d, Y.atleast1d,
+          ⟨X.atleast1d.shape, (List.zip X.data Y.data).map (kern.strain P.d cv (nlFlag NLterms))⟩⟩) ∧
+    (∀ (NLterms : Bool) (Farg : Option (Fin 6 → Fin 6 → K)) (F : Fin 6 → Fin 6 → K), fieldModuleOf k = .clt →
+      (Farg = some F ∨ (Farg = none ∧ P.d.F = some F)) →
+      (P.stress kern c Farg (some X) (some Y) gridx gridy NLterms).res =
+        .ok ⟨X.atleast1d, Y.atleast1d,
+          ⟨X.atleast1d.shape, (List.zip X.data Y.data).map fun pt => applyF F (kern.strain P.d cv (nlFlag NLterms) pt)⟩⟩) := by
+  have hf := defaultField_given P.d.a P.d.b X Y hs gridx gridy
+  have hu := evalField_ok P c (some X) (some Y) gridx gridy (fun fm => some (kern.uvw fm)) false 0 _ hf k hk _ rfl cv hc hcores
+  have hures : (P.uvw kern c (some X) (some Y) gridx gridy).res =
+      .ok ⟨X.atleast1d.shape, (List.zip X.data Y.data).map (kern.uvw (fieldModuleOf k) P.d cv)⟩ := by
+    rw [uvw_res, hu]; simp [Except.map, FieldPts.pts, atleast1d_data]
+  have hstrain : ∀ NLterms : Bool, fieldModuleOf k = .clt →
+      (P.strain kern c (some X) (some Y) gridx gridy NLterms).res =
+        .ok ⟨X.atleast1d, Y.atleast1d,
+          ⟨X.atleast1d.shape, (List.zip X.data Y.data).map (kern.strain P.d cv (nlFlag NLterms))⟩⟩ := by
+    intro NL hfm
+    have hs' := evalField_ok P c (some X) (some Y) gridx gridy (strainFn kern NL) true (nlFlag NL) _ hf k hk
+      (fun p cv => kern.strain p cv (nlFlag NL)) (by rw [hfm]; rfl) cv hc hcores
+    rw [strain_eq, hs']; simp [Except.map, FieldPts.pts, atleast1d_data]
+  refine ⟨hures, ?_, ?_, ?_, hstrain, ?_⟩
+  · intro j x y hx hy
+    refine ⟨_, hures, ?_⟩
+    have hz : (List.zip X.data Y.data)[j]? = some (x, y) := List.getElem?_zip_eq_some.mpr ⟨hx, hy⟩
+    simp [Arr.flat?, List.getElem?_map, hz]
+  · unfold Panel.uvw; simp only [hu]; simp [FieldPts.pts, atleast1d_data]
+  · unfold Panel.uvw; simp only [hu]; simp [FieldPts.pts, atleast1d_data, Arr.map]
+  · intro NL Farg F hfm hF
+    have hres : resolveF Farg P.d.F = some F := by
+      rcases hF with h | ⟨h1, h2⟩
+      · subst h; rfl
+      · subst h1; exact h2
+    rw [stress_eq, hstrain NL hfm, hres]
+    simp [Arr.map]
+
+/-- non-vacuity of `field_pointwise`: a cylindrical panel, three worker threads, two points given as python lists, `c` of three entries;
+the kernels return the point, the sum of `c`, the identity `rest` of the panel and the flag -/
+example :
+    let kern : Kernels ℚ Nat := ⟨fun _ p c pt => ⟨pt.1, pt.2, c.sum, p.rest, 0⟩, fun p c flag pt => ⟨pt.1, pt.2, c.sum, flag, p.rest, 0⟩⟩
+    let P : Panel ℚ Nat Nat := { d := ⟨.kind .cpanel, 2, 1, 1, 1, none, 3, 7⟩, group := 0 }
+    (P.uvw kern (.vec [1, 2, 3]) (some ⟨[2], [1, 2]⟩) (some ⟨[2], [1 / 2, 1 / 4]⟩) 300 300).res =
+      .ok ⟨[2], [⟨1, 1 / 2, 6, 7, 0⟩, ⟨2, 1 / 4, 6, 7, 0⟩]⟩ := by
+  intro kern P
+  have h := (field_pointwise kern P .cpanel rfl (by decide) (.vec [1, 2, 3]) _ rfl ⟨[2], [1, 2]⟩ ⟨[2], [1 / 2, 1 / 4]⟩ rfl 300 300).1
+  rw [h]
+  norm_num [Arr.atleast1d, fieldModuleOf, kern, P]
+
+/-- RESULTS DO NOT DEPEND ON HOW MANY POINTS ARE REQUESTED: for every point list `pts` and every list of positions `idx` in it (a
+sub-list when increasing, with repetitions for duplicated points; `pts` itself is the selection `0 … n-1` of any longer list), querying
+the selected points alone returns exactly the selection of what the query of all of `pts` returns — for `uvw`, for the strains and for
+the stress resultants, for every panel (valid model or not: then both queries raise the same exception), every `c`, every
+`NLterms`, every `F`. -/
+theorem points_sublist (kern : Kernels K R) (P : Panel K R G) (hcores : 1 ≤ P.d.outNumCores) (c : CArg K)
+    (pts : List (K × K)) (idx : List Nat) (hidx : ∀ i ∈ idx, i < pts.length) (gridx gridy : Int) :
+    (P.uvw kern c (xsOf (pick pts idx)) (ysOf (pick pts idx)) gridx gridy).res =
+      (P.uvw kern c (xsOf pts) (ysOf pts) gridx gridy).res.map (fun r => ⟨[idx.length], pick r.data idx⟩) ∧
+    (∀ NLterms : Bool,
+      (P.strain kern c (xsOf (pick pts idx)) (ysOf (pick pts idx)) gridx gridy NLterms).res.map (·.e) =
+        (P.strain kern c (xsOf pts) (ysOf pts) gridx gridy NLterms).res.map (fun r => ⟨[idx.length], pick r.e.data idx⟩)) ∧
+    (∀ (NLterms : Bool) (Farg : Option (Fin 6 → Fin 6 → K)),
+      (P.stress kern c Farg (xsOf (pick pts idx)) (ysOf (pick pts idx)) gridx gridy NLterms).res.map (·.N) =
+        (P.stress kern c Farg (xsOf pts) (ysOf pts) gridx gridy NLterms).res.map (fun r => ⟨[idx.length], pick r.N.data idx⟩)) := by
+  have hstrain : ∀ NLterms : Bool,
+      (P.strain kern c (xsOf (pick pts idx)) (ysOf (pick pts idx)) gridx gridy NLterms).res.map (·.e) =
+        (P.strain kern c (xsOf pts) (ysOf pts) gridx gridy NLterms).res.map (fun r => ⟨[idx.length], pick r.e.data idx⟩) := by
+    intro NL
+    have h := evalField_pick P c gridx gridy (strainFn kern NL) true (nlFlag NL) pts idx hidx hcores
+    rw [strain_eq, strain_eq]
+    cases h1 : (P.evalField c (xsOf (pick pts idx)) (ysOf (pick pts idx)) gridx gridy (strainFn kern NL) true (nlFlag NL)).res <;>
+      cases h2 : (P.evalField c (xsOf pts) (ysOf pts) gridx gridy (strainFn kern NL) true (nlFlag NL)).res <;>
+      simp only [h1, h2, Except.map] at h ⊢ <;> exact h
+  refine ⟨?_, hstrain, ?_⟩
+  · rw [uvw_res, uvw_res]
+    have h := evalField_pick P c gridx gridy (fun fm => some (kern.uvw fm)) false 0 pts idx hidx hcores
+    cases h1 : (P.evalField c (xsOf (pick pts idx)) (ysOf (pick pts idx)) gridx gridy (fun fm => some (kern.uvw fm)) false 0).res <;>
+      cases h2 : (P.evalField c (xsOf pts) (ysOf pts) gridx gridy (fun fm => some (kern.uvw fm)) false 0).res <;>
+      simp only [h1, h2, Except.map] at h ⊢ <;> exact h
+  · intro NL Farg
+    have h := hstrain NL
+    rw [stress_eq, stress_eq]
+    cases h1 : (P.strain kern c (xsOf (pick pts idx)) (ysOf (pick pts idx)) gridx gridy NL).res <;>
+      cases h2 : (P.strain kern c (xsOf pts) (ysOf pts) gridx gridy NL).res <;>
+      cases hF : resolveF Farg P.d.F <;>
+      simp only [h1, h2, Except.map] at h ⊢ <;>
+      first | exact h | (injection h with h; simp [h, Arr.map, pick_map]) | cases h
+
+/-- non-vacuity of `points_sublist`: four points, the selection `[2, 0, 2]` (a duplicated point), two worker threads -/
+example :
+    let kern : Kernels ℚ Nat := ⟨fun _ p c pt => ⟨pt.1, pt.2, c.sum, p.rest, 0⟩, fun p c flag pt => ⟨pt.1, pt.2, c.sum, flag, p.rest, 0⟩⟩
+    let P : Panel ℚ Nat Nat := { d := ⟨.kind .plate, 2, 1, 1, 1, none, 2, 7⟩, group := 0 }
+    let pts : List (ℚ × ℚ) := [(0, 0), (1, 1 / 2), (2, 1), (1 / 2, 1 / 3)]
+    pick pts [2, 0, 2] = [(2, 1), (0, 0), (2, 1)] ∧
+    (P.uvw kern (.vec [1, 2, 3]) (xsOf (pick pts [2, 0, 2])) (ysOf (pick pts [2, 0, 2])) 0 0).res =
+      (P.uvw kern (.vec [1, 2, 3]) (xsOf pts) (ysOf pts) 0 0).res.map (fun r => ⟨[3], pick r.data [2, 0, 2]⟩) := by
+  intro kern P pts
+  exact ⟨by simp [pick, pts], (points_sublist kern P (by decide) _ pts [2, 0, 2] (by simp [pts]) 0 0).1⟩
+
+/-- RESULTS DO NOT DEPEND ON THE ORDERING OF THE POINTS: if `idx` is a permutation of the positions `0 … n-1` of the point list, the
+query at the permuted points returns at position `t` what the original query returns at position `idx[t]`, and the returned values
+are a permutation of the original ones — displacements, strains, stress resultants. -/
+theorem points_permutation_equivariant (kern : Kernels K R) (P : Panel K R G) (hcores : 1 ≤ P.d.outNumCores) (c : CArg K)
+    (pts : List (K × K)) (idx : List Nat) (hperm : idx.Perm (List.range pts.length)) (gridx gridy : Int) :
+    (∀ r r', (P.uvw kern c (xsOf pts) (ysOf pts) gridx gridy).res = .ok r →
+      (P.uvw kern c (xsOf (pick pts idx)) (ysOf (pick pts idx)) gridx gridy).res = .ok r' →
+      (∀ t (ht : t < idx.length), r'.flat? t = r.flat? idx[t]) ∧ r'.data.Perm r.data) ∧
+    (∀ (NLterms : Bool) r r', (P.strain kern c (xsOf pts) (ysOf pts) gridx gridy NLterms).res = .ok r →
+      (P.strain kern c (xsOf (pick pts idx)) (ysOf (pick pts idx)) gridx gridy NLterms).res = .ok r' →
+      (∀ t (ht : t < idx.length), r'.e.flat? t = r.e.flat? idx[t]) ∧ r'.e.data.Perm r.e.data) ∧
+    (∀ (NLterms : Bool) (Farg : Option (Fin 6 → Fin 6 → K)) r r',
+      (P.stress kern c Farg (xsOf pts) (ysOf pts) gridx gridy NLterms).res = .ok r →
+      (P.stress kern c Farg (xsOf (pick pts idx)) (ysOf (pick pts idx)) gridx gridy NLterms).res = .ok r' →
+      (∀ t (ht : t < idx.length), r'.N.flat? t = r.N.flat? idx[t]) ∧ r'.N.data.Perm r.N.data) := by
+  have hidx : ∀ i ∈ idx, i < pts.length := fun i hi => List.mem_range.mp (hperm.mem_iff.mp hi)
+  obtain ⟨h1, h2, h3⟩ := points_sublist kern P hcores c pts idx hidx gridx gridy
+  -- lengths: the result of a successful query has one entry per point
+  have key : ∀ {V : Type} (d d' : List V), d.length = pts.length → d' = pick d idx →
+      (∀ t (ht : t < idx.length), d'[t]? = d[idx[t]]?) ∧ d'.Perm d := by
+    intro V d d' hl hd
+    subst hd
+    exact ⟨fun t ht => pick_getElem? d idx (by rw [hl]; exact hidx) t ht, pick_perm d idx (by rw [hl]; exact hperm)⟩
+  refine ⟨?_, ?_, ?_⟩
+  · intro r r' hr hr'
+    rw [hr, hr'] at h1
+    have hr'' : r' = ⟨[idx.length], pick r.data idx⟩ := by simpa [Except.map] using h1
+    subst hr''
+    exact key r.data _ (uvw_pts_length kern P c gridx gridy pts hcores r hr) rfl
+  · intro NL r r' hr hr'
+    have h := h2 NL
+    rw [hr, hr'] at h
+    have hr'' : r'.e = ⟨[idx.length], pick r.e.data idx⟩ := by simpa [Except.map] using h
+    rw [hr'']
+    exact key r.e.data _ (strain_pts_length kern P c gridx gridy NL pts hcores r hr) rfl
+  · intro NL Farg r r' hr hr'
+    have h := h3 NL Farg
+    rw [hr, hr'] at h
+    have hr'' : r'.N = ⟨[idx.length], pick r.N.data idx⟩ := by simpa [Except.map] using h
+    rw [hr'']
+    exact key r.N.data _ (stress_pts_length kern P c Farg gridx gridy NL pts hcores r hr) rfl
+
+/-- non-vacuity of `points_permutation_equivariant`: three points in the order `[2, 0, 1]` -/
+example :
+    let kern : Kernels ℚ Nat := ⟨fun _ p c pt => ⟨pt.1, pt.2, c.sum, p.rest, 0⟩, fun p c flag pt => ⟨pt.1, pt.2, c.sum, flag, p.rest, 0⟩⟩
+    let P : Panel ℚ Nat Nat := { d := ⟨.kind .plate, 2, 1, 1, 1, none, 2, 7⟩, group := 0 }
+    let pts : List (ℚ × ℚ) := [(0, 0), (1, 1 / 2), (2, 1)]
+    ∀ r r', (P.uvw kern (.vec [1, 2, 3]) (xsOf pts) (ysOf pts) 0 0).res = .ok r →
+      (P.uvw kern (.vec [1, 2, 3]) (xsOf (pick pts [2, 0, 1])) (ysOf (pick pts [2, 0, 1])) 0 0).res = .ok r' →
+      (∀ t (ht : t < 3), r'.flat? t = r.flat? [2, 0, 1][t]) ∧ r'.data.Perm r.data := by
+  intro kern P pts
+  exact (points_permutation_equivariant kern P (by decide) _ pts [2, 0, 1] (by decide) 0 0).1
+
+/-- WHAT `gridx, gridy` EVALUATE (`xs` or `ys` not given; `gridx, gridy ≥ 0`): the result arrays have shape `(gridy, gridx)` and entry
+`[i, j]` (flat position `i * gridx + j`) is the kernel at `x_j = j · a / (gridx − 1)`, `y_i = i · b / (gridy − 1)` — `numpy.meshgrid`'s
+default `indexing='xy'` of the two `numpy.linspace(0, a, gridx)`, `linspace(0, b, gridy)`; the last grid lines are the edges `x = a`,
+`y = b`; `self.Xs[i, j] = x_j`, `self.Ys[i, j] = y_i` are stored.  Same points for `strain` and `stress`. -/
+theorem grid_is_meshgrid_of_linspace (kern : Kernels K R) (P : Panel K R G) (k : PanelGlue.ModelKind) (hk : P.d.model = .kind k)
+    (hcores : 1 ≤ P.d.outNumCores) (c : CArg K) (cv : List K) (hc : c.contig = some cv)
+    (xs ys : Option (Arr K)) (hnone : xs = none ∨ ys = none) (gridx gridy : Nat) :
+    (P.uvw kern c xs ys gridx gridy).res =
+      .ok ⟨[gridy, gridx], (gridPts P.d.a P.d.b gridx gridy).map (kern.uvw (fieldModuleOf k) P.d cv)⟩ ∧
+    (gridPts P.d.a P.d.b gridx gridy).length = gridy * gridx ∧
+    (∀ i j, i < gridy → j < gridx →
+      (gridPts P.d.a P.d.b gridx gridy)[i * gridx + j]? =
+        some ((j : K) * (P.d.a / ((gridx - 1 : Nat) : K)), (i : K) * (P.d.b / ((gridy - 1 : Nat) : K)))) ∧
+    (((gridx - 1 : Nat) : K) ≠ 0 → ((gridx - 1 : Nat) : K) * (P.d.a / ((gridx - 1 : Nat) : K)) = P.d.a) ∧
+    (((gridy - 1 : Nat) : K) ≠ 0 → ((gridy - 1 : Nat) : K) * (P.d.b / ((gridy - 1 : Nat) : K)) = P.d.b) ∧
+    (∃ Xs Ys, (P.uvw kern c xs ys gridx gridy).post.out.Xs = some Xs ∧ (P.uvw kern c xs ys gridx gridy).post.out.Ys = some Ys ∧
+      Xs.shape = [gridy, gridx] ∧ Ys.shape = [gridy, gridx] ∧
+      ∀ i j, i < gridy → j < gridx →
+        Xs.flat? (i * gridx + j) = some ((j : K) * (P.d.a / ((gridx - 1 : Nat) : K))) ∧
+        Ys.flat? (i * gridx + j) = some ((i : K) * (P.d.b / ((gridy - 1 : Nat) : K)))) ∧
+    (∀ NLterms : Bool, fieldModuleOf k = .clt →
+      (P.strain kern c xs ys gridx gridy NLterms).res =
+        .ok ⟨meshX (linspace0 P.d.a gridx) (linspace0 P.d.b gridy), meshY (linspace0 P.d.a gridx) (linspace0 P.d.b gridy),
+          ⟨[gridy, gridx], (gridPts P.d.a P.d.b gridx gridy).map (kern.strain P.d cv (nlFlag NLterms))⟩⟩) ∧
+    (∀ (NLterms : Bool) (Farg : Option (Fin 6 → Fin 6 → K)) (F : Fin 6 → Fin 6 → K), fieldModuleOf k = .clt →
+      (Farg = some F ∨ (Farg = none ∧ P.d.F = some F)) →
+      (P.stress kern c Farg xs ys gridx gridy NLterms).res =
+        .ok ⟨meshX (linspace0 P.d.a gridx) (linspace0 P.d.b gridy), meshY (linspace0 P.d.a gridx) (linspace0 P.d.b gridy),
+          ⟨[gridy, gridx],
+            (gridPts P.d.a P.d.b gridx gridy).map fun pt => applyF F (kern.strain P.d cv (nlFlag NLterms) pt)⟩⟩) := by
+  have hf := defaultField_grid P.d.a P.d.b xs ys hnone gridx gridy
+  have hu := evalField_ok P c xs ys gridx gridy (fun fm => some (kern.uvw fm)) false 0 _ hf k hk _ rfl cv hc hcores
+  have hstrain : ∀ NLterms : Bool, fieldModuleOf k = .clt →
+      (P.strain kern c xs ys gridx gridy NLterms).res =
+        .ok ⟨meshX (linspace0 P.d.a gridx) (linspace0 P.d.b gridy), meshY (linspace0 P.d.a gridx) (linspace0 P.d.b gridy),
+          ⟨[gridy, gridx], (gridPts P.d.a P.d.b gridx gridy).map (kern.strain P.d cv (nlFlag NLterms))⟩⟩ := by
+    intro NL hfm
+    have hs' := evalField_ok P c xs ys gridx gridy (strainFn kern NL) true (nlFlag NL) _ hf k hk
+      (fun p cv => kern.strain p cv (nlFlag NL)) (by rw [hfm]; rfl) cv hc hcores
+    rw [strain_eq, hs']
+    simp only [Except.map, grid_pts, grid_shape]
+  have hgp := gridPts_getElem? P.d.a P.d.b gridx gridy
+  refine ⟨?_, gridPts_length _ _ _ _, hgp, fun h => mul_div_cancel₀ _ h, fun h => mul_div_cancel₀ _ h, ?_, hstrain, ?_⟩
+  · rw [uvw_res, hu]; simp only [Except.map, grid_pts, grid_shape]
+  · refine ⟨meshX (linspace0 P.d.a gridx) (linspace0 P.d.b gridy), meshY (linspace0 P.d.a gridx) (linspace0 P.d.b gridy), ?_, ?_,
+      grid_shape _ _ _ _, by simp [meshY, linspace0_length], ?_⟩
+    · unfold Panel.uvw; simp only [hu]
+    · unfold Panel.uvw; simp only [hu]
+    · intro i j hi hj
+      have h := hgp i j hi hj
+      rw [← grid_pts, FieldPts.pts] at h
+      exact List.getElem?_zip_eq_some.mp h
+  · intro NL Farg F hfm hF
+    have hres : resolveF Farg P.d.F = some F := by
+      rcases hF with h | ⟨h1, h2⟩
+      · subst h; rfl
+      · subst h1; exact h2
+    rw [stress_eq, hstrain NL hfm, hres]
+    simp [Arr.map]
+
+/-- non-vacuity of `grid_is_meshgrid_of_linspace`: `gridx = 3`, `gridy = 2` on a `2 × 1` panel: the six points in result order -/
+example :
+    let kern : Kernels ℚ Nat := ⟨fun _ p c pt => ⟨pt.1, pt.2, c.sum, p.rest, 0⟩, fun p c flag pt => ⟨pt.1, pt.2, c.sum, flag, p.rest, 0⟩⟩
+    let P : Panel ℚ Nat Nat := { d := ⟨.kind .plate, 2, 1, 1, 1, none, 4, 7⟩, group := 0 }
+    (P.uvw kern (.vec [1, 2, 3]) none none (3 : Nat) (2 : Nat)).res =
+      .ok ⟨[2, 3], (gridPts (2 : ℚ) 1 3 2).map (kern.uvw .clt P.d [1, 2, 3])⟩ ∧
+    gridPts (2 : ℚ) 1 3 2 = [(0, 0), (1, 0), (2, 0), (0, 1), (1, 1), (2, 1)] := by
+  intro kern P
+  refine ⟨(grid_is_meshgrid_of_linspace kern P .plate rfl (by decide) (.vec [1, 2, 3]) _ rfl none none (Or.inl rfl) 3 2).1, ?_⟩
+  norm_num [gridPts, linspace0, List.range, List.range.loop, List.flatMap]
+
+/-- `PanelAssembly.__init__` / `get_size`: THE SLICES ARE CONTIGUOUS, DISJOINT AND COVER `c`.  For any list of panels (any `m, n`):
+panel `k` of the assembly is the given panel with `col_start` = the sum of `3 m n` over the panels before it and `col_end = col_start +
+3 m_k n_k`; so the first range starts at 0, every range starts where the previous one ends, the last one ends at `get_size()`; and for
+every vector `c` of that size the slices `c[col_start:col_end]`, concatenated in panel order, are `c` itself, each of the length
+`3 m n` of its panel. -/
+theorem assembly_slices_partition (panels : List (Panel K R G)) :
+    (Assembly.new panels).panels.length = panels.length ∧
+    (∀ k : Nat, (Assembly.new panels).panels[k]? = (panels[k]?).map fun (p : Panel K R G) =>
+      { p with colStart := some (((sizesOf panels).take k).sum),
+               colEnd := some (((sizesOf panels).take k).sum + 3 * p.d.m * p.d.n) }) ∧
+    ((sizesOf panels).take 0).sum = 0 ∧
+    (∀ k (hk : k < panels.length),
+      ((sizesOf panels).take (k + 1)).sum = ((sizesOf panels).take k).sum + 3 * panels[k].d.m * panels[k].d.n) ∧
+    ((sizesOf panels).take panels.length).sum = (Assembly.new panels).getSize.1 ∧
+    (∀ c : List K, c.length = (Assembly.new panels).getSize.1 →
+      ((Assembly.new panels).panels.map fun p => pySlice p.colStart p.colEnd c).flatten = c ∧
+      ∀ p ∈ (Assembly.new panels).panels, (pySlice p.colStart p.colEnd c).length = 3 * p.d.m * p.d.n) := by
+  have hsize : (Assembly.new panels).getSize.1 = (sizesOf panels).sum := by
+    have : ∀ (c0 : Nat) (ps : List (Panel K R G)), sizesOf (assignFrom c0 ps) = sizesOf ps := by
+      intro c0 ps
+      induction ps generalizing c0 with
+      | nil => rfl
+      | cons p t ih => simp only [assignFrom, sizesOf, List.map_cons] at ih ⊢; rw [ih]
+    simp only [Assembly.getSize, Assembly.new]
+    exact congrArg List.sum (this 0 panels)
+  have hlen : (sizesOf panels).length = panels.length := by simp [sizesOf]
+  refine ⟨assignFrom_length 0 panels, ?_, by simp, ?_, ?_, ?_⟩
+  · intro k
+    have := assignFrom_getElem? 0 panels k
+    simpa [Assembly.new, Asm.startOf] using this
+  · intro k hk
+    have := Asm.startOf_succ (sizesOf panels) k (by rw [hlen]; exact hk)
+    simpa [Asm.startOf, sizesOf] using this
+  · rw [hsize, ← hlen, List.take_length]
+  · intro c hc
+    rw [hsize] at hc
+    refine ⟨?_, ?_⟩
+    · have := assign_slices_flatten 0 panels c (by rw [hc]; omega)
+      simpa [Assembly.new] using this
+    · exact assign_slice_length 0 panels c (by rw [hc]; omega)
+
+/-- non-vacuity of `assembly_slices_partition`: three panels with `(m, n) = (2, 1), (1, 1), (2, 2)`: ranges `0:6`, `6:9`, `9:21` -/
+example :
+    let mk : Nat → Nat → Panel ℚ Nat Nat := fun m n => { d := ⟨.kind .plate, 1, 1, m, n, none, 4, 0⟩, group := 0 }
+    ((Assembly.new [mk 2 1, mk 1 1, mk 2 2]).panels.map fun p => (p.colStart, p.colEnd)) =
+      [(some 0, some 6), (some 6, some 9), (some 9, some 21)] ∧
+    (Assembly.new [mk 2 1, mk 1 1, mk 2 2]).getSize.1 = 21 := by
+  intro mk
+  exact ⟨by decide, by decide⟩
+
+/-- EACH GROUP OF AN ASSEMBLY IS EVALUATED WITH THAT PANEL'S OWN SLICE.  For every assembly (any number of panels, any `m, n`, any group
+labels, groups with several panels, whatever `col_start / col_end` the panels carry — `assembly_slices_partition` says what
+`PanelAssembly.__init__` stores there), every amplitude vector, every group label `g`, every `gridx, gridy ≥ 0`, every
+`out_num_cores ≥ 1` of the assembly: `PanelAssembly.uvw(c, g, gridx, gridy)` returns one entry per panel of the group, in the order of
+`self.panels` (`members g` = the sub-list of the panels whose `group` equals `g`: panels of other groups contribute nothing), and the
+entry of a panel is the compiled kernel of THAT panel's field module with THAT panel's attributes and the slice
+`c[col_start:col_end]` of THAT panel, on that panel's own `gridx × gridy` grid (`x` up to its `a`, `y` up to its `b`), shape
+`(gridy, gridx)`; the compiled call is `fuvw(c[col_start:col_end], panel, x, y, assembly.out_num_cores)`. -/
+theorem assembly_group_uses_own_slice [DecidableEq G] (kern : Kernels K R) (A : Assembly K R G) (hcores : 1 ≤ A.outNumCores)
+    (cv : List K) (g : G) (gridx gridy : Nat) (fmOf : Panel K R G → FieldModule)
+    (hmodel : ∀ p ∈ A.members g, ∃ k, p.d.model = .kind k ∧ fieldModuleOf k = fmOf p) :
+    A.members g = A.panels.filter (fun p => decide (p.group = g)) ∧
+    A.uvw kern (.vec cv) g gridx gridy = .ok ((A.members g).map fun p =>
+      ⟨⟨false, fmOf p, p.d, pySlice p.colStart p.colEnd cv, gridPts p.d.a p.d.b gridx gridy, A.outNumCores, 0⟩,
+        meshX (linspace0 p.d.a gridx) (linspace0 p.d.b gridy), meshY (linspace0 p.d.a gridx) (linspace0 p.d.b gridy),
+        ⟨[gridy, gridx], (gridPts p.d.a p.d.b gridx gridy).map (kern.uvw (fmOf p) p.d (pySlice p.colStart p.colEnd cv))⟩⟩) := by
+  refine ⟨rfl, ?_⟩
+  unfold Assembly.uvw
+  apply mapE_ok
+  intro p hp
+  obtain ⟨k, hk, hfm⟩ := hmodel p hp
+  rw [evalPanel_ok A cv gridx gridy _ false 0 p k hk _ rfl hcores, hfm]
+
+/-- non-vacuity of `assembly_group_uses_own_slice`: three panels in the groups `5, 9, 5` with `(m, n) = (1, 1), (2, 1), (1, 2)`; the
+group `5` is answered by the first panel with `c[0:3]` and the third with `c[9:15]`, nothing from the second -/
+example :
+    let kern : Kernels ℚ Nat := ⟨fun _ p c pt => ⟨pt.1, pt.2, c.sum, p.rest, 0⟩, fun p c flag pt => ⟨pt.1, pt.2, c.sum, flag, p.rest, 0⟩⟩
+    let mk : Nat → Nat → Nat → Nat → Panel ℚ Nat Nat := fun m n grp id => { d := ⟨.kind .plate, 1, 1, m, n, none, 4, id⟩, group := grp }
+    let A : Assembly ℚ Nat Nat := Assembly.new [mk 1 1 5 0, mk 2 1 9 1, mk 1 2 5 2]
+    let c : List ℚ := (List.range 15).map fun i => (i : ℚ)
+    ((A.members 5).map fun p => (p.d.rest, pySlice p.colStart p.colEnd c)) = [(0, [0, 1, 2]), (2, [9, 10, 11, 12, 13, 14])] ∧
+    ∃ r, A.uvw kern (.vec c) 5 (2 : Nat) (2 : Nat) = .ok r ∧ r.map (fun e => e.call.c) = [[0, 1, 2], [9, 10, 11, 12, 13, 14]] := by
+  intro kern mk A c
+  have hmem : A.members 5 = [{ mk 1 1 5 0 with colStart := some 0, colEnd := some 3 }, { mk 1 2 5 2 with colStart := some 9, colEnd := some 15 }] := by
+    simp [A, Assembly.members, Assembly.new, assignFrom, mk]
+  have hsl : ((A.members 5).map fun p => (p.d.rest, pySlice p.colStart p.colEnd c)) = [(0, [0, 1, 2]), (2, [9, 10, 11, 12, 13, 14])] := by
+    rw [hmem]; simp [pySlice, c, mk, List.range, List.range.loop]
+  refine ⟨hsl, _, (assembly_group_uses_own_slice kern A (by decide) c 5 2 2 (fun _ => .clt) ?_).2, ?_⟩
+  · intro p hp
+    rw [hmem] at hp
+    simp only [List.mem_cons, List.not_mem_nil, or_false] at hp
+    rcases hp with rfl | rfl <;> exact ⟨.plate, rfl, rfl⟩
+  · rw [List.map_map]
+    have := congrArg (List.map Prod.snd) hsl
+    simpa [Function.comp_def] using this
+
+/-- `NLterms` AND THE OTHER OPTIONS ARE FORWARDED UNCHANGED TO EVERY PANEL of the group: for both values of `NLterms`,
+`PanelAssembly.strain(c, g, gridx, gridy, NLterms)` makes, for every panel of the group in order, the compiled call
+`fstrain(c[col_start:col_end], panel, x, y, assembly.out_num_cores, NLterms=int(NLterms))` on that panel's `gridx × gridy` grid and returns
+its values in shape `(gridy, gridx)`; `PanelAssembly.stress` makes the SAME calls (same flag) and returns, per point, that panel's own
+laminate matrix `panel.F` applied to these strains. -/
+theorem assembly_strain_stress_forward_options [DecidableEq G] (kern : Kernels K R) (A : Assembly K R G) (hcores : 1 ≤ A.outNumCores)
+    (cv : List K) (g : G) (gridx gridy : Nat) (NLterms : Bool)
+    (hmodel : ∀ p ∈ A.members g, ∃ k, p.d.model = .kind k ∧ fieldModuleOf k = .clt) :
+    A.strain kern (.vec cv) g gridx gridy NLterms = .ok ((A.members g).map fun p =>
+      ⟨⟨true, .clt, p.d, pySlice p.colStart p.colEnd cv, gridPts p.d.a p.d.b gridx gridy, A.outNumCores, nlFlag NLterms⟩,
+        meshX (linspace0 p.d.a gridx) (linspace0 p.d.b gridy), meshY (linspace0 p.d.a gridx) (linspace0 p.d.b gridy),
+        ⟨[gridy, gridx], (gridPts p.d.a p.d.b gridx gridy).map
+          (kern.strain p.d (pySlice p.colStart p.colEnd cv) (nlFlag NLterms))⟩⟩) ∧
+    (∀ Fof : Panel K R G → Fin 6 → Fin 6 → K, (∀ p ∈ A.members g, p.d.F = some (Fof p)) →
+      A.stress kern (.vec cv) g gridx gridy NLterms = .ok ((A.members g).map fun p =>
+        ⟨⟨true, .clt, p.d, pySlice p.colStart p.colEnd cv, gridPts p.d.a p.d.b gridx gridy, A.outNumCores, nlFlag NLterms⟩,
+          meshX (linspace0 p.d.a gridx) (linspace0 p.d.b gridy), meshY (linspace0 p.d.a gridx) (linspace0 p.d.b gridy),
+          ⟨[gridy, gridx], (gridPts p.d.a p.d.b gridx gridy).map fun pt =>
+            applyF (Fof p) (kern.strain p.d (pySlice p.colStart p.colEnd cv) (nlFlag NLterms) pt)⟩⟩)) := by
+  have hstep : ∀ p ∈ A.members g,
+      A.evalPanel (.vec cv) (gridx : Int) (gridy : Int) (strainFn kern NLterms) true (nlFlag NLterms) p =
+        .ok ⟨⟨true, .clt, p.d, pySlice p.colStart p.colEnd cv, gridPts p.d.a p.d.b gridx gridy, A.outNumCores, nlFlag NLterms⟩,
+          meshX (linspace0 p.d.a gridx) (linspace0 p.d.b gridy), meshY (linspace0 p.d.a gridx) (linspace0 p.d.b gridy),
+          ⟨[gridy, gridx], (gridPts p.d.a p.d.b gridx gridy).map
+            (kern.strain p.d (pySlice p.colStart p.colEnd cv) (nlFlag NLterms))⟩⟩ := by
+    intro p hp
+    obtain ⟨k, hk, hfm⟩ := hmodel p hp
+    rw [evalPanel_ok A cv gridx gridy _ true _ p k hk (fun p cv => kern.strain p cv (nlFlag NLterms)) (by rw [hfm]; rfl) hcores, hfm]
+  refine ⟨?_, ?_⟩
+  · unfold Assembly.strain
+    exact mapE_ok _ _ _ hstep
+  · intro Fof hF
+    unfold Assembly.stress
+    apply mapE_ok
+    intro p hp
+    simp only [hstep p hp, hF p hp, Arr.map, List.map_map, Function.comp_def]
+
+/-- non-vacuity of `assembly_strain_stress_forward_options`: two panels of one group with different laminate matrices, `NLterms=False` -/
+example :
+    let kern : Kernels ℚ Nat := ⟨fun _ p c pt => ⟨pt.1, pt.2, c.sum, p.rest, 0⟩, fun p c flag pt => ⟨pt.1, pt.2, c.sum, flag, p.rest, 0⟩⟩
+    let mk : Nat → Nat → Panel ℚ Nat Nat := fun m id =>
+      { d := ⟨.kind .cpanel, 1, 1, m, 1, some fun r q => (id : ℚ) + r.val + 2 * q.val, 4, id⟩, group := 1 }
+    let A : Assembly ℚ Nat Nat := Assembly.new [mk 1 0, mk 2 1]
+    ∃ r, A.stress kern (.vec [1, 2, 3, 4, 5, 6, 7, 8, 9]) 1 (2 : Nat) (1 : Nat) false = .ok r ∧
+      r.map (fun e => (e.call.nl, e.call.cores, e.call.c)) = [(0, 4, [1, 2, 3]), (0, 4, [4, 5, 6, 7, 8, 9])] := by
+  intro kern mk A
+  have hmem : A.members 1 = [{ mk 1 0 with colStart := some 0, colEnd := some 3 }, { mk 2 1 with colStart := some 3, colEnd := some 9 }] := by
+    simp [A, Assembly.members, Assembly.new, assignFrom, mk]
+  have hm : ∀ p ∈ A.members 1, ∃ k, p.d.model = .kind k ∧ fieldModuleOf k = .clt := by
+    intro p hp
+    rw [hmem] at hp
+    simp only [List.mem_cons, List.not_mem_nil, or_false] at hp
+    rcases hp with rfl | rfl <;> exact ⟨.cpanel, rfl, rfl⟩
+  refine ⟨_, (assembly_strain_stress_forward_options kern A (by decide) _ 1 2 1 false hm).2
+    (fun p => fun r q => (p.d.rest : ℚ) + r.val + 2 * q.val) ?_, ?_⟩
+  · intro p hp
+    rw [hmem] at hp
+    simp only [List.mem_cons, List.not_mem_nil, or_false] at hp
+    rcases hp with rfl | rfl <;> rfl
+  · rw [List.map_map, hmem]
+    simp [Function.comp_def, pySlice, nlFlag, A, Assembly.new, mk]
+
+/-- THE ERROR BRANCHES of the panel queries, in the order in which the source reaches them: (1) `xs`, `ys` of different shapes:
+`ValueError`, nothing stored, no compiled call; (2) `gridx` or `gridy` negative on the grid branch: `ValueError` (from `linspace`);
+(3) `model` not a key of `modelDB.db` (`None` on a fresh panel): `KeyError` AFTER `_default_field` stored `Xs, Ys`; (4) a `c` that is
+not one-dimensional: `ValueError` from the compiled signature; (5) `strain` / `stress` for the one-field model (`clt_bardell_field_w`
+has no `fstrain`): `AttributeError`; (6) `stress` without laminate matrix (`F=None` and `self.F is None`): `ValueError` — AFTER the
+compiled strain call was made.  The LENGTH of `c` is checked nowhere (see Model/FieldGlue.lean). -/
+theorem field_query_errors (kern : Kernels K R) (P : Panel K R G) (c : CArg K) (gridx gridy : Int) :
+    (∀ X Y : Arr K, X.atleast1d.shape ≠ Y.atleast1d.shape →
+      (P.uvw kern c (some X) (some Y) gridx gridy).res = .error .shapeMismatch ∧
+      (P.uvw kern c (some X) (some Y) gridx gridy).post = P ∧ (P.uvw kern c (some X) (some Y) gridx gridy).calls = []) ∧
+    (∀ xs ys : Option (Arr K), (xs = none ∨ ys = none) → (gridx < 0 ∨ gridy < 0) →
+      (P.uvw kern c xs ys gridx gridy).res = .error .gridNegative) ∧
+    (∀ (xs ys : Option (Arr K)) (f : FieldPts K), defaultField P.d.a P.d.b xs ys gridx gridy = .ok f →
+      (P.d.model = .unset ∨ P.d.model = .invalid) →
+      (P.uvw kern c xs ys gridx gridy).res = .error .modelKey ∧
+      (P.uvw kern c xs ys gridx gridy).post.out.Xs = some f.Xs ∧ (P.uvw kern c xs ys gridx gridy).calls = []) ∧
+    (∀ (xs ys : Option (Arr K)) (f : FieldPts K) (k : PanelGlue.ModelKind), defaultField P.d.a P.d.b xs ys gridx gridy = .ok f →
+      P.d.model = .kind k → c.contig = none → (P.uvw kern c xs ys gridx gridy).res = .error .cNdim) ∧
+    (∀ (xs ys : Option (Arr K)) (f : FieldPts K) (NLterms : Bool), defaultField P.d.a P.d.b xs ys gridx gridy = .ok f →
+      P.d.model = .kind .plateW → (P.strain kern c xs ys gridx gridy NLterms).res = .error .noFstrain) ∧
+    (∀ (xs ys : Option (Arr K)) (NLterms : Bool) (s : StrainRes K), (P.strain kern c xs ys gridx gridy NLterms).res = .ok s →
+      P.d.F = none →
+      (P.stress kern c none xs ys gridx gridy NLterms).res = .error .noLaminate ∧
+      (P.stress kern c none xs ys gridx gridy NLterms).calls = (P.strain kern c xs ys gridx gridy NLterms).calls) := by
+  refine ⟨?_, ?_, ?_, ?_, ?_, ?_⟩
+  · intro X Y hne
+    have hf : defaultField P.d.a P.d.b (some X) (some Y) gridx gridy = .error .shapeMismatch := by
+      unfold defaultField; simp only [if_neg hne]
+    unfold Panel.uvw Panel.evalField
+    simp only [hf]
+    simp
+  · intro xs ys hnone hneg
+    have hg : gridArrays P.d.a P.d.b gridx gridy = .error .gridNegative := by
+      unfold gridArrays; rw [if_pos hneg]
+    have hf : defaultField P.d.a P.d.b xs ys gridx gridy = .error .gridNegative := by
+      unfold defaultField
+      cases xs with
+      | none => simp only [hg]
+      | some X =>
+        cases ys with
+        | none => simp only [hg]
+        | some Y => simp at hnone
+    unfold Panel.uvw Panel.evalField
+    simp only [hf]
+  · intro xs ys f hf hm
+    unfold Panel.uvw Panel.evalField
+    rcases hm with hm | hm <;> simp only [hf, hm] <;> simp
+  · intro xs ys f k hf hk hc
+    unfold Panel.uvw Panel.evalField
+    simp only [hf, hk, hc]
+  · intro xs ys f NL hf hk
+    rw [strain_eq]
+    unfold Panel.evalField
+    simp only [hf, hk, fieldModuleOf, strainFn]
+    rfl
+  · intro xs ys NL s hs hF
+    refine ⟨?_, (stress_post kern P c none xs ys gridx gridy NL).2⟩
+    rw [stress_eq, hs]
+    simp [resolveF, hF]
+
+/-- non-vacuity of `field_query_errors` (1), (3), (6): a fresh panel (`model = None`) and a panel without laminate matrix -/
+example :
+    let kern : Kernels ℚ Nat := ⟨fun _ p c pt => ⟨pt.1, pt.2, c.sum, p.rest, 0⟩, fun p c flag pt => ⟨pt.1, pt.2, c.sum, flag, p.rest, 0⟩⟩
+    let P0 : Panel ℚ Nat Nat := { d := ⟨.unset, 2, 1, 1, 1, none, 4, 7⟩, group := 0 }
+    let P1 : Panel ℚ Nat Nat := { d := ⟨.kind .plate, 2, 1, 1, 1, none, 4, 7⟩, group := 0 }
+    (P0.uvw kern (.vec [1, 2, 3]) (some ⟨[2], [1, 2]⟩) (some ⟨[1], [1]⟩) 0 0).res = .error .shapeMismatch ∧
+    (P0.uvw kern (.vec [1, 2, 3]) (some ⟨[], [1]⟩) (some ⟨[1], [1]⟩) 0 0).res = .error .modelKey ∧
+    (P1.stress kern (.vec [1, 2, 3]) none (some ⟨[], [1]⟩) (some ⟨[1], [1]⟩) 0 0 true).res = .error .noLaminate ∧
+    (P1.stress kern (.vec [1, 2, 3]) none (some ⟨[], [1]⟩) (some ⟨[1], [1]⟩) 0 0 true).calls.length = 1 := by
+  intro kern P0 P1
+  refine ⟨((field_query_errors kern P0 _ 0 0).1 _ _ (by decide)).1,
+    ((field_query_errors kern P0 _ 0 0).2.2.1 _ _ _ (defaultField_given _ _ _ _ (by decide) 0 0) (Or.inl rfl)).1, ?_, ?_⟩
+  · have hs := (field_pointwise kern P1 .plate rfl (by decide) (.vec [1, 2, 3]) _ rfl ⟨[], [1]⟩ ⟨[1], [1]⟩ (by decide) 0 0).2.2.2.2.1 true rfl
+    exact ((field_query_errors kern P1 _ 0 0).2.2.2.2.2 _ _ true _ hs rfl).1
+  · have hs := (field_pointwise kern P1 .plate rfl (by decide) (.vec [1, 2, 3]) _ rfl ⟨[], [1]⟩ ⟨[1], [1]⟩ (by decide) 0 0).2.2.2.2.1 true rfl
+    rw [((field_query_errors kern P1 _ 0 0).2.2.2.2.2 _ _ true _ hs rfl).2, (strain_post kern P1 _ _ _ 0 0 true).2]
+    rw [evalField_ok P1 _ _ _ 0 0 (strainFn kern true) true (nlFlag true) _ (defaultField_given _ _ _ _ (by decide) 0 0) .plate rfl
+      (fun p cv => kern.strain p cv (nlFlag true)) rfl _ rfl (by decide)]
+    rfl
+
+end glue
 
 end Compmech.Panel.C11
